@@ -5,11 +5,13 @@
 package rep
 
 import (
+	"bytes"
 	"crypto/sha1"
 	"encoding/hex"
 	"encoding/json"
 	"fmt"
 	"os"
+	"os/exec"
 	"path/filepath"
 	"regexp"
 	"sort"
@@ -286,8 +288,8 @@ func (r *Run) Finish() int {
 	ev := map[string]interface{}{
 		"property_id": r.ID, "tier": r.Tier, "seed": r.Seed, "level": r.Level,
 		"coverage": cov, "assumptions": r.Assume,
-		"wall_s":     time.Since(r.start).Seconds(),
-		"violations": len(fresh),
+		"wall_s":             time.Since(r.start).Seconds(),
+		"violations":         len(fresh),
 		"known_findings_hit": len(knownHit),
 	}
 	os.MkdirAll(filepath.Join(Root, "evidence"), 0o755)
@@ -302,4 +304,80 @@ func (r *Run) Finish() int {
 		return 1
 	}
 	return 0
+}
+
+// ---- sharding over worker processes -------------------------------------------
+
+// Shard reports which slice of the enumeration this process owns: cases with
+// index%n == i. In the driver process (no VERIF_SHARD) it is (0,1,false).
+func Shard() (i, n int, worker bool) {
+	s := os.Getenv("VERIF_SHARD")
+	if s == "" {
+		return 0, 1, false
+	}
+	fmt.Sscanf(s, "%d/%d", &i, &n)
+	if n <= 0 {
+		return 0, 1, false
+	}
+	return i, n, true
+}
+
+// RunSharded re-executes this binary n times as workers (VERIF_SHARD=i/n), each
+// writing a partial result that is merged into r. perWorkerTimeout bounds one worker.
+func RunSharded(r *Run, n int, perWorkerTimeout time.Duration) {
+	dir := filepath.Join(Root, ".build", "tmp")
+	os.MkdirAll(dir, 0o755)
+	type res struct {
+		i    int
+		path string
+		err  error
+		out  []byte
+	}
+	ch := make(chan res, n)
+	for i := 0; i < n; i++ {
+		go func(i int) {
+			path := filepath.Join(dir, fmt.Sprintf("partial-%s-%d-%d.json", r.ID, os.Getpid(), i))
+			cmd := exec.Command(os.Args[0], os.Args[1:]...)
+			cmd.Env = append(os.Environ(), fmt.Sprintf("VERIF_SHARD=%d/%d", i, n), "VERIF_PARTIAL="+path)
+			var buf bytes.Buffer
+			cmd.Stdout, cmd.Stderr = &buf, &buf
+			done := make(chan error, 1)
+			if err := cmd.Start(); err != nil {
+				ch <- res{i, path, err, nil}
+				return
+			}
+			go func() { done <- cmd.Wait() }()
+			select {
+			case err := <-done:
+				ch <- res{i, path, err, buf.Bytes()}
+			case <-time.After(perWorkerTimeout):
+				cmd.Process.Kill()
+				<-done
+				ch <- res{i, path, fmt.Errorf("worker %d exceeded %v", i, perWorkerTimeout), buf.Bytes()}
+			}
+		}(i)
+	}
+	for k := 0; k < n; k++ {
+		x := <-ch
+		if x.err != nil {
+			tail := x.out
+			if len(tail) > 3000 {
+				tail = tail[len(tail)-3000:]
+			}
+			r.mu.Lock()
+			if r.Broken == "" {
+				r.Broken = fmt.Sprintf("worker %d failed: %v\n%s", x.i, x.err, tail)
+			}
+			r.mu.Unlock()
+			continue
+		}
+		if err := r.MergePartial(x.path); err != nil {
+			r.mu.Lock()
+			if r.Broken == "" {
+				r.Broken = fmt.Sprintf("worker %d left no result: %v", x.i, err)
+			}
+			r.mu.Unlock()
+		}
+		os.Remove(x.path)
+	}
 }
